@@ -357,7 +357,9 @@ theorem info_of_constructed (na : Char → Bool) (maxLen : Nat) (st st' : Msg.St
   · rw [h1]; simp [callRemote, marshalMsg, marshalBVs_spec, hl, List.range_eq_range']
   · simp [callRemote, marshalMsg, marshalBVs_spec, hl]
 
-/-- **C20 end to end (C20 ∘ C04 ∘ C03 ∘ C01), item 2.**  `xs` are sent messages, each made by a constructor call of
+/-- **C20 end to end for txdbus-constructed messages (little-endian; descriptors only in method calls with `oobFDs=[]`)
+- C20 ∘ C04 ∘ C03 ∘ C01, item 2.**  (Returns, errors, signals and big-endian messages CARRYING descriptors cannot be built by
+txdbus; for them the receiver half is `attribution` with `MsgOK` as a hypothesis.)  `xs` are sent messages, each made by a constructor call of
 C03's model under the premises of C03's parse theorems (`SentFdOK`: a method call with `oobFDs=[]` whose body
 carries the descriptors `x.ds` in its `h` arguments - any signature, the same number several times, none at all -,
 or any constructor without descriptors, with or without a body), in the sender model's vocabulary
@@ -378,7 +380,10 @@ queue, then `queue[unix_fds:]`), fresh in binary mode.  Then:
   `self._receivedFDs[m.unix_fds:]`, the `if mt == 1 … elif mt == 4` chain), run on that queue, hands that message to
   the hook of its type and leaves exactly the queue `deliver` computed (`queueAfter`): the abstract `info` / `deliver`
   pair of Proto/Fds.lean and the literal model agree on every delivery;
-* (the same in one equation) `(raw, args)` of the deliveries = `(x.msg.raw, x.ds.map some)` of the first messages;
+* (the same in one equation; `d.args` is the abstract receiver's SPEC-level reading of the `h` positions -
+  `infoOfParse` decodes the body with C01's specification decoder -, not an observation of the code model: what the
+  code model's parse hands over is the `ParsedAs` clause above; for constructed messages both are `x.ds`)
+  `(raw, args)` of the deliveries = `(x.msg.raw, x.ds.map some)` of the first messages;
 * every complete message was delivered; the final queue holds exactly the descriptors of undelivered messages;
 * when all bytes have arrived: every message was delivered, nothing is buffered, NO descriptor is left queued.
 
@@ -460,26 +465,8 @@ theorem sender_sends_constructed (a : Msg.CallArgs PyVal) (ts : List Ty) (pv : P
     (hrep : Code.RepFields (ds.map fdVal) vs true ts items 0 ds.length)
     (henc : Spec.encodeAll Code.genAlign (Txdbus.endianOf true) ts vs 0 = some bs) (hfuel : depthAll vs ≤ fuel) :
     oobAfter fuel a = some (ds.map fdVal) ∧
-    sendConstructed (oobAfter fuel a) = some (callRemote true (bvOfFields ds vs ts)).2 := by
-  have hm : Code.marshal fuel (renderAll ts) pv 0 true (some []) = .ok (bs.length, bs, some (ds.map fdVal)) := by
-    have h' := Code.marshal_eq_spec Code.genAlign Code.padOK_gen Code.genAlign_pos true ts pv items vs (ds.map fdVal)
-      ds.length 0 bs fuel hitems hrep henc hfuel
-    rw [h', List.take_of_length_le (by simp)]
-  have ho : oobAfter fuel a = some (ds.map fdVal) := by
-    unfold oobAfter
-    rw [hsig]
-    cases hr : renderAll ts with
-    | nil => exact absurd hr hne
-    | cons ch cs =>
-      simp only [wireCodec, hbody, hoob, Option.getD_some]
-      rw [← hr, hm]
-  have hl : fdLeavesL (bvOfFields ds vs ts) = ds := by
-    simpa using bvOfFields_of_rep ds vs true ts items 0 ds.length hrep
-  refine ⟨ho, ?_⟩
-  rw [ho]
-  simp only [sendConstructed, Option.getD_some, mapM_fdNat]
-  simp [callRemote, marshalMsg, sendMessage, marshalBVs_spec, hl]
-
+    sendConstructed (oobAfter fuel a) = some (callRemote true (bvOfFields ds vs ts)).2 :=
+  sender_sends_constructed_gen a ts pv items vs ds bs fuel hsig hne hbody hoob hitems hrep henc hfuel
 
 /-- The receive order induced by the sender's own transport calls for constructed messages (`senderEvs`: each
 message's `sendFileDescriptor` calls as descriptor arrivals, then its `write` as one read) is `Consistent`, and
@@ -505,32 +492,64 @@ theorem senderEvs_consistent (na : Char → Bool) (maxLen : Nat) (hmax : maxLen 
   simp only [bytesUpTo, List.take_length, List.map_map]
   rfl
 
-/-- **Sender and receiver joined** (no hypothesis about the environment left): the sender performs `sendMessage`
-for the constructed messages `xs` one after the other, the receiver sees the transport calls in that order: every
-message is delivered with exactly its descriptors, C03's parse on the real queue returns the messages sent,
-nothing stays buffered, no descriptor stays queued. -/
+/-- **Sender and receiver joined** (txdbus-constructed messages; no hypothesis about the environment left): the sender
+performs `sendMessage` for the constructed messages `xs` one after the other - `senderEvsCode`: for every message the
+transport calls of the CODE-level sender (`sendOfCall`: `msg.oobFDs` after the constructor, one `sendFileDescriptor` per
+entry, then the `write`; `sendOfCall_sent`: equal to the sender model's calls in all three branches of `SentFdOK`) -,
+the receiver sees the transport calls in that order: every message is delivered with exactly its descriptors, C03's
+parse on the real queue returns the messages sent, nothing stays buffered, no descriptor stays queued. -/
 theorem descriptors_end_to_end_sender (na : Char → Bool) (maxLen : Nat) (hmax : maxLen ≤ Msg.Spec.maxMessage)
     (fuel : Nat) (A : Auth α) (xs : List SentFd) (s : St α)
     (hxs : ∀ x ∈ xs, SentFdOK Gen.Message.tables na maxLen fuel x)
     (hs : s.authenticated = true) (hbuf : s.buffer = []) (hnext : s.nextMsgLen = 0) :
-    ParsedFrom Gen.Message.tables fuel xs (recvRun A (infoOfParse Gen.Message.tables) ⟨s, []⟩ (senderEvs xs)).2 ∧
-    (recvRun A (infoOfParse Gen.Message.tables) ⟨s, []⟩ (senderEvs xs)).2.map (fun d => (d.raw, d.args)) =
+    senderEvsCode fuel xs = senderEvs xs ∧
+    ParsedFrom Gen.Message.tables fuel xs
+      (recvRun A (infoOfParse Gen.Message.tables) ⟨s, []⟩ (senderEvsCode fuel xs)).2 ∧
+    (recvRun A (infoOfParse Gen.Message.tables) ⟨s, []⟩ (senderEvsCode fuel xs)).2.map (fun d => (d.raw, d.args)) =
       xs.map (fun x => (x.msg.raw, x.ds.map some)) ∧
-    (recvRun A (infoOfParse Gen.Message.tables) ⟨s, []⟩ (senderEvs xs)).1.st.buffer = [] ∧
-    (recvRun A (infoOfParse Gen.Message.tables) ⟨s, []⟩ (senderEvs xs)).1.queue = [] := by
+    (recvRun A (infoOfParse Gen.Message.tables) ⟨s, []⟩ (senderEvsCode fuel xs)).1.st.buffer = [] ∧
+    (recvRun A (infoOfParse Gen.Message.tables) ⟨s, []⟩ (senderEvsCode fuel xs)).1.queue = [] := by
+  have hcode := senderEvsCode_eq Gen.Message.tables na maxLen fuel xs hxs
+  rw [hcode]
   obtain ⟨hc, hb⟩ := senderEvs_consistent na maxLen hmax fuel xs hxs
   obtain ⟨h1, h2, _, _, _, h6⟩ := descriptors_end_to_end na maxLen hmax fuel A xs (senderEvs xs) s hxs hc hs hbuf hnext
   obtain ⟨e1, e2, e3⟩ := h6 hb
-  refine ⟨h1, ?_, e2, e3⟩
+  refine ⟨rfl, h1, ?_, e2, e3⟩
   rw [h2, e1, List.take_length]
 
+/-- **The literal receiver.**  Hypotheses of `descriptors_end_to_end`.  The receiver written out literally
+(`litRecvRun`, Proto/FdsMsg.lean: `fileDescriptorReceived` appends to the queue; `dataReceived` = C04's framing step, then
+for every frame C04's model of the whole of `rawDBusMessageReceived`, `Receive.handleFrame`: `parseMessage(raw,
+self._receivedFDs)` with C01's codec, `self._receivedFDs[m.unix_fds:]`, the hook of the message type; an escaping exception
+ends the connection) run over the same events does, step for step, what the abstract receiver `recvRun (infoOfParse)` does:
+same framing state, same queue (as Python ints), never crashes, one hook call per delivery (`litCallOf`); and the hook
+calls are (`LitFrom`): for the first messages of `xs`, in order, the hook of the message's type with the message sent. -/
+theorem descriptors_end_to_end_literal (na : Char → Bool) (maxLen : Nat) (hmax : maxLen ≤ Msg.Spec.maxMessage)
+    (fuel : Nat) (A : Auth α) (xs : List SentFd) (evs : List Ev) (s : St α)
+    (hxs : ∀ x ∈ xs, SentFdOK Gen.Message.tables na maxLen fuel x)
+    (hc : Consistent (xs.map SentFd.toMsg) evs)
+    (hs : s.authenticated = true) (hbuf : s.buffer = []) (hnext : s.nextMsgLen = 0) :
+    litRecvRun Gen.Message.tables fuel A ⟨s, [], false⟩ evs =
+      (⟨(recvRun A (infoOfParse Gen.Message.tables) ⟨s, []⟩ evs).1.st,
+        (recvRun A (infoOfParse Gen.Message.tables) ⟨s, []⟩ evs).1.queue.map fdVal, false⟩,
+       (recvRun A (infoOfParse Gen.Message.tables) ⟨s, []⟩ evs).2.map (litCallOf Gen.Message.tables fuel)) ∧
+    LitFrom Gen.Message.tables xs (litRecvRun Gen.Message.tables fuel A ⟨s, [], false⟩ evs).2 := by
+  have hpf := (descriptors_end_to_end na maxLen hmax fuel A xs evs s hxs hc hs hbuf hnext).1
+  have hag := agrees_of_parsedFrom _ fuel xs _ hpf
+  have hsim := litRecvRun_sim Gen.Message.tables fuel A (infoOfParse Gen.Message.tables) evs ⟨s, []⟩ hag
+  simp only [List.map_nil] at hsim
+  refine ⟨hsim, ?_⟩
+  rw [hsim]
+  exact litCalls_of_parsedFrom _ fuel xs _ hpf
 
 /-- **C20 end to end on a connection that starts in line mode.**  `descriptors_end_to_end` behind an authentication
 handshake (as in `attribution_after_handshake`: the descriptor queue exists from `connectionMade` on; descriptors may
 arrive before the first read, among the handshake reads, together with the final handshake line; `read (d1 ++ d2)`
 is the read that completes the handshake): the deliveries are the sent messages in order, each with exactly its
-descriptors, C03's parse on the real queue returns the messages sent, the queue holds the descriptors of undelivered
-messages, and when all bytes have arrived every message was delivered and no descriptor is left queued. -/
+descriptors, C03's parse on the real queue returns the messages sent, every complete message was delivered (bytes seen
+= handshake ++ delivered messages ++ buffer, the buffer holds no complete message), the queue holds the descriptors of
+undelivered messages, and when all bytes have arrived every message was delivered and no descriptor is left queued.
+Fragment: txdbus-constructed messages (little-endian; descriptors only in method calls) - as `descriptors_end_to_end`. -/
 theorem descriptors_end_to_end_after_handshake (na : Char → Bool) (maxLen : Nat)
     (hmax : maxLen ≤ Msg.Spec.maxMessage) (fuel : Nat) (A : Auth α) (xs : List SentFd) (s : St α)
     (hs : List Bytes) (last : Bytes) (a1 a' : α) (evsA evsB : List Ev) (d1 d2 : Bytes)
@@ -548,6 +567,12 @@ theorem descriptors_end_to_end_after_handshake (na : Char → Bool) (maxLen : Na
         (fun d => (d.raw, d.args)) =
       (xs.take (recvRun A (infoOfParse Gen.Message.tables) ⟨s, []⟩ (evsA ++ .read (d1 ++ d2) :: evsB)).2.length).map
         (fun x => (x.msg.raw, x.ds.map some)) ∧
+    bytesOf (evsA ++ .read (d1 ++ d2) :: evsB) =
+      Spec.unlines (hs ++ [last]) ++
+        ((xs.take (recvRun A (infoOfParse Gen.Message.tables) ⟨s, []⟩ (evsA ++ .read (d1 ++ d2) :: evsB)).2.length).map
+          (·.msg.raw)).flatten ++
+        (recvRun A (infoOfParse Gen.Message.tables) ⟨s, []⟩ (evsA ++ .read (d1 ++ d2) :: evsB)).1.st.buffer ∧
+    ¬ Spec.hasFrame (recvRun A (infoOfParse Gen.Message.tables) ⟨s, []⟩ (evsA ++ .read (d1 ++ d2) :: evsB)).1.st.buffer ∧
     fdsOf (evsA ++ .read (d1 ++ d2) :: evsB) =
       ((xs.take (recvRun A (infoOfParse Gen.Message.tables) ⟨s, []⟩ (evsA ++ .read (d1 ++ d2) :: evsB)).2.length).map
         (·.ds)).flatten ++
@@ -582,7 +607,7 @@ theorem descriptors_end_to_end_after_handshake (na : Char → Bool) (maxLen : Na
     apply List.map_congr_left
     intro y hy
     exact (toMsg_fds _ na maxLen fuel y (hxs y (List.mem_of_mem_take hy))).2.1
-  refine ⟨hpf, parsedFrom_args _ fuel xs R.2 hpf, by rw [← hfdss]; exact b4, ?_⟩
+  refine ⟨hpf, parsedFrom_args _ fuel xs R.2 hpf, by rw [← hraws]; exact b2, b3, by rw [← hfdss]; exact b4, ?_⟩
   intro hall
   have hlen : R.2.length ≤ (xs.map SentFd.toMsg).length := by
     have := congrArg List.length (parsedFrom_args _ fuel xs R.2 hpf)
@@ -627,12 +652,12 @@ example :
       construct Gen.Message.tables (wireCodec 2) (fun _ => false) Gen.Message.maxMsgLen st1 exPlainSignal
         = (st2, .ok m2) ∧
       SentFdOK Gen.Message.tables (fun _ => false) Gen.Message.maxMsgLen 2
-        ⟨m1, [7, 7], [.basic .h, .basic .h], [.int 0, .int 1], [.int .plain 7, .int .plain 7]⟩ ∧
-      SentFdOK Gen.Message.tables (fun _ => false) Gen.Message.maxMsgLen 2 ⟨m2, [], [], [], []⟩ ∧
+        ⟨m1, exFdCall, [7, 7], [.basic .h, .basic .h], [.int 0, .int 1], [.int .plain 7, .int .plain 7]⟩ ∧
+      SentFdOK Gen.Message.tables (fun _ => false) Gen.Message.maxMsgLen 2 ⟨m2, exPlainSignal, [], [], [], []⟩ ∧
       infoOfParse Gen.Message.tables m1.raw = ⟨some 2, [0, 1]⟩ ∧
       infoOfParse Gen.Message.tables m2.raw = ⟨none, []⟩ ∧
-      senderEvs [⟨m1, [7, 7], [.basic .h, .basic .h], [.int 0, .int 1], [.int .plain 7, .int .plain 7]⟩,
-                 ⟨m2, [], [], [], []⟩] = [.fd 7, .fd 7, .read m1.raw, .read m2.raw] ∧
+      senderEvs [⟨m1, exFdCall, [7, 7], [.basic .h, .basic .h], [.int 0, .int 1], [.int .plain 7, .int .plain 7]⟩,
+                 ⟨m2, exPlainSignal, [], [], [], []⟩] = [.fd 7, .fd 7, .read m1.raw, .read m2.raw] ∧
       (recvRun idleAuth (infoOfParse Gen.Message.tables) ⟨{ St.init true () with authenticated := true }, []⟩
         [.fd 7, .fd 7, .read m1.raw, .read m2.raw]).2.map (fun d => (d.raw, d.args)) =
         [(m1.raw, [some 7, some 7]), (m2.raw, [])] ∧
@@ -649,8 +674,8 @@ example :
   obtain ⟨st2, m2, h2⟩ := construct_shape20 (T := Gen.Message.tables) (C := wireCodec 2)
     (na := fun _ => false) (maxLen := Gen.Message.maxMsgLen) (st := ⟨2⟩) (c := exPlainSignal) (by decide +kernel)
   have hx1 : SentFdOK Gen.Message.tables (fun _ => false) Gen.Message.maxMsgLen 2
-      ⟨m1, [7, 7], [.basic .h, .basic .h], [.int 0, .int 1], [.int .plain 7, .int .plain 7]⟩ :=
-    ⟨Msg.St.init Gen.Message.tables, ⟨2⟩, exFdCall, by decide, h1,
+      ⟨m1, exFdCall, [7, 7], [.basic .h, .basic .h], [.int 0, .int 1], [.int .plain 7, .int .plain 7]⟩ :=
+    ⟨Msg.St.init Gen.Message.tables, ⟨2⟩, by decide, h1,
       Or.inr ⟨.list [.int .plain 7, .int .plain 7], [0, 0, 0, 0, 1, 0, 0, 0], rfl,
         (by decide : renderAll [Ty.basic .h, Ty.basic .h] ≠ []), rfl,
         (by decide : allWF [Ty.basic .h, Ty.basic .h] = true), rfl,
@@ -658,21 +683,23 @@ example :
         (by decide +kernel : Spec.encodeAll Code.genAlign (Txdbus.endianOf true) [Ty.basic .h, Ty.basic .h]
           [Val.int 0, Val.int 1] 0 = some [0, 0, 0, 0, 1, 0, 0, 0]),
         (by decide : depthAll [Val.int 0, Val.int 1] ≤ 2), Or.inl ⟨rfl, exFd_rep⟩⟩⟩
-  have hx2 : SentFdOK Gen.Message.tables (fun _ => false) Gen.Message.maxMsgLen 2 ⟨m2, [], [], [], []⟩ :=
-    ⟨⟨2⟩, st2, exPlainSignal, by decide, h2, Or.inl ⟨Or.inl rfl, Or.inl rfl, rfl, rfl, rfl, rfl⟩⟩
-  have hall : ∀ x ∈ [(⟨m1, [7, 7], [.basic .h, .basic .h], [.int 0, .int 1], [.int .plain 7, .int .plain 7]⟩ : SentFd),
-      ⟨m2, [], [], [], []⟩], SentFdOK Gen.Message.tables (fun _ => false) Gen.Message.maxMsgLen 2 x := by
+  have hx2 : SentFdOK Gen.Message.tables (fun _ => false) Gen.Message.maxMsgLen 2 ⟨m2, exPlainSignal, [], [], [], []⟩ :=
+    ⟨⟨2⟩, st2, by decide, h2, Or.inl ⟨Or.inl rfl, Or.inl rfl, rfl, rfl, rfl, rfl⟩⟩
+  have hall : ∀ x ∈ [(⟨m1, exFdCall, [7, 7], [.basic .h, .basic .h], [.int 0, .int 1], [.int .plain 7, .int .plain 7]⟩ : SentFd),
+      ⟨m2, exPlainSignal, [], [], [], []⟩], SentFdOK Gen.Message.tables (fun _ => false) Gen.Message.maxMsgLen 2 x := by
     intro x hx
     simp only [List.mem_cons, List.not_mem_nil, or_false] at hx
-    rcases hx with rfl | rfl <;> assumption
+    rcases hx with rfl | rfl
+    · exact hx1
+    · exact hx2
   have i1 := info_of_sent _ Msg.genTables_ok _ _ _ _ hx1
   have i2 := info_of_sent _ Msg.genTables_ok _ _ _ _ hx2
-  have hev : senderEvs [(⟨m1, [7, 7], [.basic .h, .basic .h], [.int 0, .int 1], [.int .plain 7, .int .plain 7]⟩ : SentFd),
-      ⟨m2, [], [], [], []⟩] = [.fd 7, .fd 7, .read m1.raw, .read m2.raw] := by
+  have hev : senderEvs [(⟨m1, exFdCall, [7, 7], [.basic .h, .basic .h], [.int 0, .int 1], [.int .plain 7, .int .plain 7]⟩ : SentFd),
+      ⟨m2, exPlainSignal, [], [], [], []⟩] = [.fd 7, .fd 7, .read m1.raw, .read m2.raw] := by
     simp [senderEvs, SentFd.body, bvOfFields, bvOf, callRemote, marshalMsg, marshalBVs, marshalBV, sendMessage, toEv]
-  obtain ⟨_, d2, _, d4⟩ := descriptors_end_to_end_sender (fun _ => false) Gen.Message.maxMsgLen (by decide) 2 idleAuth _
+  obtain ⟨dc, _, d2, _, d4⟩ := descriptors_end_to_end_sender (fun _ => false) Gen.Message.maxMsgLen (by decide) 2 idleAuth _
     { St.init true () with authenticated := true } hall rfl rfl rfl
-  rw [hev] at d2 d4
+  rw [dc, hev] at d2 d4
   refine ⟨⟨2⟩, st2, m1, m2, h1, h2, hx1, hx2, ?_, ?_, hev, d2, d4⟩
   · rw [i1]; simp [SentFd.body, bvOfFields, bvOf, callRemote, marshalMsg, marshalBVs, marshalBV]
   · rw [i2]; simp [SentFd.body, bvOfFields, callRemote, marshalMsg, marshalBVs]
@@ -714,8 +741,8 @@ example (st2 : Msg.St) (m1 m2 : Msg.Msg PyVal)
     (recvRun okAuth (infoOfParse Gen.Message.tables) ⟨St.init true (), []⟩
         ([.fd 7, .fd 7] ++ .read ((beginLine ++ [13, 10]) ++ (m1.raw ++ m2.raw)) :: [])).1.queue = [] := by
   have hx1 : SentFdOK Gen.Message.tables (fun _ => false) Gen.Message.maxMsgLen 2
-      ⟨m1, [7, 7], [.basic .h, .basic .h], [.int 0, .int 1], [.int .plain 7, .int .plain 7]⟩ :=
-    ⟨Msg.St.init Gen.Message.tables, ⟨2⟩, exFdCall, by decide, h1,
+      ⟨m1, exFdCall, [7, 7], [.basic .h, .basic .h], [.int 0, .int 1], [.int .plain 7, .int .plain 7]⟩ :=
+    ⟨Msg.St.init Gen.Message.tables, ⟨2⟩, by decide, h1,
       Or.inr ⟨.list [.int .plain 7, .int .plain 7], [0, 0, 0, 0, 1, 0, 0, 0], rfl,
         (by decide : renderAll [Ty.basic .h, Ty.basic .h] ≠ []), rfl,
         (by decide : allWF [Ty.basic .h, Ty.basic .h] = true), rfl,
@@ -723,14 +750,16 @@ example (st2 : Msg.St) (m1 m2 : Msg.Msg PyVal)
         (by decide +kernel : Spec.encodeAll Code.genAlign (Txdbus.endianOf true) [Ty.basic .h, Ty.basic .h]
           [Val.int 0, Val.int 1] 0 = some [0, 0, 0, 0, 1, 0, 0, 0]),
         (by decide : depthAll [Val.int 0, Val.int 1] ≤ 2), Or.inl ⟨rfl, exFd_rep⟩⟩⟩
-  have hx2 : SentFdOK Gen.Message.tables (fun _ => false) Gen.Message.maxMsgLen 2 ⟨m2, [], [], [], []⟩ :=
-    ⟨⟨2⟩, st2, exPlainSignal, by decide, h2, Or.inl ⟨Or.inl rfl, Or.inl rfl, rfl, rfl, rfl, rfl⟩⟩
-  let x1 : SentFd := ⟨m1, [7, 7], [.basic .h, .basic .h], [.int 0, .int 1], [.int .plain 7, .int .plain 7]⟩
-  let x2 : SentFd := ⟨m2, [], [], [], []⟩
+  have hx2 : SentFdOK Gen.Message.tables (fun _ => false) Gen.Message.maxMsgLen 2 ⟨m2, exPlainSignal, [], [], [], []⟩ :=
+    ⟨⟨2⟩, st2, by decide, h2, Or.inl ⟨Or.inl rfl, Or.inl rfl, rfl, rfl, rfl, rfl⟩⟩
+  let x1 : SentFd := ⟨m1, exFdCall, [7, 7], [.basic .h, .basic .h], [.int 0, .int 1], [.int .plain 7, .int .plain 7]⟩
+  let x2 : SentFd := ⟨m2, exPlainSignal, [], [], [], []⟩
   have hall : ∀ x ∈ [x1, x2], SentFdOK Gen.Message.tables (fun _ => false) Gen.Message.maxMsgLen 2 x := by
     intro x hx
     simp only [List.mem_cons, List.not_mem_nil, or_false] at hx
-    rcases hx with rfl | rfl <;> assumption
+    rcases hx with rfl | rfl
+    · exact hx1
+    · exact hx2
   obtain ⟨r1, f1, _⟩ := toMsg_fds Gen.Message.tables _ _ _ x1 hx1
   obtain ⟨r2, f2, _⟩ := toMsg_fds Gen.Message.tables _ _ _ x2 hx2
   have hlen1 : 16 ≤ m1.raw.length :=
@@ -776,13 +805,88 @@ example (st2 : Msg.St) (m1 m2 : Msg.Msg PyVal)
         have hpn : p = [] := hp'.1
         subst hpn
         simpa [fdsOf] using hfk
-  obtain ⟨_, d2, _, d4⟩ := descriptors_end_to_end_after_handshake (fun _ => false) Gen.Message.maxMsgLen (by decide) 2
+  obtain ⟨_, d2, _, _, _, d4⟩ := descriptors_end_to_end_after_handshake (fun _ => false) Gen.Message.maxMsgLen (by decide) 2
     okAuth [x1, x2] (St.init true ()) [] beginLine () () [.fd 7, .fd 7] [] (beginLine ++ [13, 10]) (m1.raw ++ m2.raw)
     (Or.inl rfl) rfl rfl rfl rfl (by intro l hl; simp at hl; subst hl; decide) rfl rfl (by decide) hall hc
   have hall_bytes : bytesOf ([Ev.fd 7, .fd 7] ++ .read ((beginLine ++ [13, 10]) ++ (m1.raw ++ m2.raw)) :: []) =
       Spec.unlines ([] ++ [beginLine]) ++ ([x1, x2].map (·.msg.raw)).flatten := by
     simp [bytesOf, Spec.unlines, x1, x2]
   obtain ⟨e1, _, e3⟩ := d4 hall_bytes
+  refine ⟨?_, e3⟩
+  rw [d2, e1]
+  rfl
+
+/-- `MethodCallMessage('/a', 'm', signature='h', body=[9], oobFDs=[])` -/
+def exFdCall2 : Msg.Call PyVal :=
+  .methodCall { path := some "/a".toList, member := some "m".toList, signature := some "h".toList,
+                body := some (.list [.int .plain 9]), oobFDs := some [] }
+
+example : (construct Gen.Message.tables (wireCodec 2) (fun _ => false) Gen.Message.maxMsgLen ⟨2⟩ exFdCall2).2.toOption.isSome
+    = true := by decide +kernel
+
+/-- **A later message's descriptor queued early.**  Two descriptor-carrying calls (`hh` with `[7, 7]`, then `h` with `[9]`);
+ALL three descriptors arrive before the first byte (`earliest_consistent`: an event sequence the environment allows), so
+descriptor 9 of the SECOND message sits in the queue while the first message is parsed.  `descriptors_end_to_end`, every
+premise discharged: the first message gets `[7, 7]`, the second `[9]`, nothing stays queued. -/
+example (st3 : Msg.St) (m1 m3 : Msg.Msg PyVal)
+    (h1 : construct Gen.Message.tables (wireCodec 2) (fun _ => false) Gen.Message.maxMsgLen
+      (Msg.St.init Gen.Message.tables) exFdCall = (⟨2⟩, .ok m1))
+    (h3 : construct Gen.Message.tables (wireCodec 2) (fun _ => false) Gen.Message.maxMsgLen ⟨2⟩ exFdCall2
+      = (st3, .ok m3)) :
+    (recvRun idleAuth (infoOfParse Gen.Message.tables) ⟨{ St.init true () with authenticated := true }, []⟩
+        [.fd 7, .fd 7, .fd 9, .read m1.raw, .read m3.raw]).2.map (fun d => (d.raw, d.args)) =
+      [(m1.raw, [some 7, some 7]), (m3.raw, [some 9])] ∧
+    (recvRun idleAuth (infoOfParse Gen.Message.tables) ⟨{ St.init true () with authenticated := true }, []⟩
+        [.fd 7, .fd 7, .fd 9, .read m1.raw, .read m3.raw]).1.queue = [] := by
+  have hx1 : SentFdOK Gen.Message.tables (fun _ => false) Gen.Message.maxMsgLen 2
+      ⟨m1, exFdCall, [7, 7], [.basic .h, .basic .h], [.int 0, .int 1], [.int .plain 7, .int .plain 7]⟩ :=
+    ⟨Msg.St.init Gen.Message.tables, ⟨2⟩, by decide, h1,
+      Or.inr ⟨.list [.int .plain 7, .int .plain 7], [0, 0, 0, 0, 1, 0, 0, 0], rfl,
+        (by decide : renderAll [Ty.basic .h, Ty.basic .h] ≠ []), rfl,
+        (by decide : allWF [Ty.basic .h, Ty.basic .h] = true), rfl,
+        by simp [Code.KeysOKList, Code.KeysOK],
+        (by decide +kernel : Spec.encodeAll Code.genAlign (Txdbus.endianOf true) [Ty.basic .h, Ty.basic .h]
+          [Val.int 0, Val.int 1] 0 = some [0, 0, 0, 0, 1, 0, 0, 0]),
+        (by decide : depthAll [Val.int 0, Val.int 1] ≤ 2), Or.inl ⟨rfl, exFd_rep⟩⟩⟩
+  have hrep3 : Code.RepFields ([9].map fdVal) [.int 0] true [.basic .h] [.int .plain 9] 0 1 := by
+    refine ⟨_, _, _, _, 1, rfl, rfl, ?_, ⟨rfl, rfl, rfl⟩⟩
+    simp only [Code.Rep]
+    exact ⟨.h, rfl, Or.inl ⟨rfl, rfl, rfl, rfl, rfl, rfl⟩⟩
+  have hx3 : SentFdOK Gen.Message.tables (fun _ => false) Gen.Message.maxMsgLen 2
+      ⟨m3, exFdCall2, [9], [.basic .h], [.int 0], [.int .plain 9]⟩ :=
+    ⟨⟨2⟩, st3, by decide, h3,
+      Or.inr ⟨.list [.int .plain 9], [0, 0, 0, 0], rfl,
+        (by decide : renderAll [Ty.basic .h] ≠ []), rfl,
+        (by decide : allWF [Ty.basic .h] = true), rfl,
+        by simp [Code.KeysOKList, Code.KeysOK],
+        (by decide +kernel : Spec.encodeAll Code.genAlign (Txdbus.endianOf true) [Ty.basic .h]
+          [Val.int 0] 0 = some [0, 0, 0, 0]),
+        (by decide : depthAll [Val.int 0] ≤ 2), Or.inl ⟨rfl, hrep3⟩⟩⟩
+  let x1 : SentFd := ⟨m1, exFdCall, [7, 7], [.basic .h, .basic .h], [.int 0, .int 1], [.int .plain 7, .int .plain 7]⟩
+  let x3 : SentFd := ⟨m3, exFdCall2, [9], [.basic .h], [.int 0], [.int .plain 9]⟩
+  have hall : ∀ x ∈ [x1, x3], SentFdOK Gen.Message.tables (fun _ => false) Gen.Message.maxMsgLen 2 x := by
+    intro x hx
+    simp only [List.mem_cons, List.not_mem_nil, or_false] at hx
+    rcases hx with rfl | rfl
+    · exact hx1
+    · exact hx3
+  obtain ⟨r1, f1, _⟩ := toMsg_fds Gen.Message.tables _ _ _ x1 hx1
+  obtain ⟨r3, f3, _⟩ := toMsg_fds Gen.Message.tables _ _ _ x3 hx3
+  have hb : bytesUpTo ([x1, x3].map SentFd.toMsg) 2 = m1.raw ++ m3.raw := by
+    simp [bytesUpTo, r1, r3, x1, x3]
+  have hf : fdsUpTo ([x1, x3].map SentFd.toMsg) 2 = [7, 7, 9] := by
+    simp [fdsUpTo, f1, f3, x1, x3]
+  have hc := earliest_consistent ([x1, x3].map SentFd.toMsg) [m1.raw, m3.raw]
+    (by
+      intro m hm
+      obtain ⟨x, hx, rfl⟩ := List.mem_map.1 hm
+      exact (wellFormed_of_sentFd _ Msg.genTables_ok _ _ _ (by decide) x (hall x hx)).1)
+    (by rw [show ([x1, x3].map SentFd.toMsg).length = 2 from rfl, hb]; simp)
+  rw [show ([x1, x3].map SentFd.toMsg).length = 2 from rfl, hf] at hc
+  simp only [List.map_cons, List.map_nil, List.cons_append, List.nil_append] at hc
+  obtain ⟨_, d2, _, _, _, d6⟩ := descriptors_end_to_end (fun _ => false) Gen.Message.maxMsgLen (by decide) 2 idleAuth
+    [x1, x3] _ { St.init true () with authenticated := true } hall hc rfl rfl rfl
+  obtain ⟨e1, _, e3⟩ := d6 (by simp [bytesOf, x1, x3])
   refine ⟨?_, e3⟩
   rw [d2, e1]
   rfl
@@ -821,5 +925,7 @@ open Txdbus.Proto.FdsE2E in
 #print axioms senderEvs_consistent
 open Txdbus.Proto.FdsE2E in
 #print axioms descriptors_end_to_end_sender
+open Txdbus.Proto.FdsE2E in
+#print axioms descriptors_end_to_end_literal
 open Txdbus.Proto.FdsE2E in
 #print axioms descriptors_end_to_end_after_handshake
